@@ -24,6 +24,17 @@ class FakeTraceMod:
     def gettrace(self):
         return self.cur
 
+    def settrace_all_threads(self, f):
+        """python 3.12 threading API: sets the hook for new threads AND the trace function of every running thread."""
+        self.sets.append(f)
+        self.cur = f
+        if self.env is not None:
+            self.env.fsys.sets.append(f)
+            self.env.fsys.cur = f
+            self.env.other_thread_trace = f
+
+    env = None
+
 
 class FakeTimer:
     instances = []
@@ -109,6 +120,8 @@ class Env:
         self.mods = (th, pp, gs, dd)
         self.saved = (th.sys, th.threading, pp.RepeatedTimer, pp.PollConfigStub, gs.grpc, dd.load_plugins, pp.time_ns)
         self.fsys, self.fthr = FakeTraceMod(PRE[sys0]), FakeTraceMod(PRE[thr0])
+        self.fthr.env = self
+        self.other_thread_trace = trace_b       # the trace function of a thread that was already running before start
         th.sys, th.threading = self.fsys, self.fthr
         FakeTimer.instances = []
         exc = (lambda m: KeyboardInterrupt(m)) if fail_base else (lambda m: RuntimeError(m))
@@ -244,6 +257,8 @@ def lifecycle(o1: int, o2: int, o3: int, o4: int, n: int, sys0: int, thr0: int, 
                 return "C14:previous-hooks-not-restored-exactly"
             if no_trace is True and (env.fsys.sets or env.fthr.sets):
                 return "C14:hooks-touched-although-tracing-disabled"
+            if not started and env.other_thread_trace != trace_b:
+                return "C14:trace-function-of-an-already-running-thread-replaced-and-not-restored"
             # ---- timers: exactly one running while started, none after shutdown
             running = [t for t in FakeTimer.instances if t.started > t.stopped]
             if started and len(running) != 1:
